@@ -10,8 +10,10 @@ Open Scope Z_scope.
 Definition qz (z : Z) : Qc := Q2Qc (inject_Z z).
 Definition q0 : Qc := Q2Qc 0.
 
-(** [Algebraic::new] (algebraic.rs:12-21): expr = x, NOT reduced modulo f. *)
-Definition alg_new : list Qc := from_raw opsQc [qz 0; qz 1].
+(** [Algebraic::new] (algebraic.rs:12-31): expr = x, or the constant -c0/c1 when f = c1 x + c0 is linear. *)
+Definition alg_new (f : list Z) : list Qc :=
+  if pdeg f =? 1 then from_raw opsQc [Qcdiv (qz (- nth 0 f 0)) (qz (nth 1 f 0))]
+  else from_raw opsQc [qz 0; qz 1].
 Definition alg_const (x : Qc) : list Qc := from_raw opsQc [x].
 Definition alg_from_int (z : Z) : list Qc := from_raw opsQc [qz z].
 
